@@ -261,6 +261,22 @@ WITNESSES = [
     # F30 (fixed)  Ket(1, 0) >> CX >> Id(1) @ Ket(0, 0) @ Id(1) >> Discard(qubit ** 3) @ Measure()   (export has CX(0, 3))
     ("", [(("ket", (1, 0)), 0), (("gate", "CX"), 0), (("ket", (0, 0)), 1), (("discard", "qqq"), 0),
           (("measure", 1, 1, 0), 0)]),
+    # ---- regression corpus (shapes on which seeded changes manifest; all correct on the tree)
+    # controlled rotations with phases outside [0, 1) and the control in superposition, made to
+    # interfere: an angle reduced modulo one turn is an extra Z on the control
+    ("", [(("ket", (0, 0)), 0), (("gate", "H"), 0), (("gate", "X"), 1), (("rot", "CRz", -5), 0),
+          (("gate", "H"), 0), (("measure", 2, 1, 0), 0)]),
+    ("", [(("ket", (0, 1)), 0), (("gate", "H"), 0), (("rot", "CRz", 21), 0), (("gate", "H"), 0),
+          (("measure", 1, 1, 0), 0), (("discard", "q"), 1)]),
+    ("", [(("ket", (0, 1)), 0), (("gate", "H"), 0), (("rot", "CRz", 37), 0), (("gate", "H"), 0),
+          (("measure", 2, 1, 0), 0)]),
+    # a qubit removed to the left of a survivor, then a Ket prepared to the right of the survivor
+    ("", [(("ket", (0, 1)), 0), (("discard", "q"), 0), (("ket", (0,)), 1), (("measure", 2, 1, 0), 0)]),
+    ("", [(("ket", (1, 1, 0)), 0), (("bra", (1,)), 0), (("ket", (0,)), 2), (("gate", "CX"), 0),
+          (("measure", 3, 1, 0), 0)]),
+    # two post-selected bits with adjacent tket indices
+    ("", [(("ket", (1, 0, 1)), 0), (("bra", (1, 0)), 0), (("measure", 1, 1, 0), 0)]),
+    ("", [(("ket", (1, 0, 1)), 0), (("bra", (1, 0)), 1), (("gate", "H"), 0), (("measure", 1, 1, 0), 0)]),
 ]
 
 
